@@ -78,6 +78,16 @@ func ruleTypeSwitchExhaustive(r *Run, rel, recv, fnName string, ifaceRel, ifaceN
 			nOther++
 		}
 		covered := asserted[shortType(T)]
+		if !covered {
+			// a case on an interface the type implements covers it
+			allInstrs(fn, func(in ssa.Instruction) {
+				if ta, ok := in.(*ssa.TypeAssert); ok && ta.CommaOk && ta.X == sw && types.IsInterface(ta.AssertedType) {
+					if it, ok := ta.AssertedType.Underlying().(*types.Interface); ok && types.Implements(T, it) {
+						covered = true
+					}
+				}
+			})
+		}
 		switch {
 		case nPanic > 0:
 			o.Fail(r.pos(fn.Pos()), "a value of type %s reaches a panic (%d path(s))", shortType(T), nPanic)
